@@ -25,6 +25,6 @@ for name in $NAMES; do
   done
   git -C /repo worktree remove --force $wt; rm -rf $out
 done
-"$HERE/check" C18 quick > /dev/null 2>&1   # rebuild against /repo
+VERIF_OUT=$(mktemp -d /tmp/hootrs-out.XXXXXX) "$HERE/check" C18 quick > /dev/null 2>&1   # rebuild against /repo
 echo "replay files reproduced exactly: $ok   mismatches: $bad" >> "$LOG"
 cat "$LOG"
